@@ -164,6 +164,14 @@ pub struct LogicalOpts {
     /// (loose / concat) the directory pack is listed after the first content pack in the manifest
     /// instead of first
     pub dir_not_first: bool,
+    /// (loose / concat) a second content pack with the id of pack 1 is listed after the others: an
+    /// "alternative" (the format allows several packs per id; the one declared first wins)
+    pub alternative_of_pack1: bool,
+    /// (concat) the loose files the container was assembled from stay next to it, at the
+    /// locations the manifest records
+    pub keep_loose_beside: bool,
+    /// a second index carries the name of the first one (another window of the same store)
+    pub dup_index_name: bool,
     /// (loose, raw first content) grow the first content of pack 1 until the 4 CRC bytes that end
     /// the pack's last table (the content-info block, right before the check block) straddle a
     /// 4096-byte page boundary of the file: a truncation at that page boundary then cuts inside a
@@ -209,6 +217,8 @@ pub struct Model {
     pub pack_counts: Vec<u32>,
     /// ids in 1..=n_packs without a pack (bit p-1)
     pub absent_ids: u32,
+    /// packs the manifest lists beyond one per id (alternatives)
+    pub extra_listed: u32,
 }
 
 impl Model {
@@ -740,6 +750,10 @@ fn make_dir_parts(logical: &Logical, model: &mut Model) -> DirParts {
     if n >= 3 {
         indexes.push(("window".to_string(), 1, n - 2));
     }
+    if logical.opts.dup_index_name && n >= 2 {
+        // same name as the first index, another window: a lookup by name answers the first
+        indexes.push(("all".to_string(), 1, n - 1));
+    }
     model.indexes = indexes.clone();
     model.variants = s.variants;
     DirParts {
@@ -858,6 +872,7 @@ fn build_inner(
         Packaging::Loose | Packaging::Concat => {
             let mut pack_files = HashMap::new();
             let mut pack_datas = Vec::new();
+            let mut alt_pack: Option<(creator::PackData, PathBuf)> = None;
             for p in 1..=logical.n_packs {
                 if logical.opts.is_absent(p) {
                     continue;
@@ -895,6 +910,27 @@ fn build_inner(
                 data.free_data = pack_manifest_free(logical.aux_seed, p);
                 pack_datas.push((data, path.clone()));
                 pack_files.insert(p, path);
+            }
+            if logical.opts.alternative_of_pack1 {
+                let path = dir.join(format!("{name}.c1alt.jbkc"));
+                let mut cpc = creator::ContentPackCreator::new_with_progress(
+                    utf8(&path),
+                    jbk::PackId::from(1),
+                    vendor,
+                    free_bytes::<24>(logical.aux_seed, "content-pack-free", 1000).into(),
+                    logical.comp.to_jbk(),
+                    Arc::clone(&opts.progress),
+                )?;
+                for c in logical.contents.iter().filter(|c| c.pack == 1) {
+                    // same entries, other bytes (e.g. another resolution of the same images)
+                    let mut b = b"ALTERNATIVE:".to_vec();
+                    b.extend_from_slice(&c.bytes);
+                    cpc.add_content(Box::new(std::io::Cursor::new(b)), c.hint.to_jbk())?;
+                }
+                let (_file, mut data) = cpc.finalize()?;
+                data.free_data = b"alt".to_vec();
+                alt_pack = Some((data, path));
+                model.extra_listed = 1;
             }
             let parts = Box::new(make_dir_parts(logical, &mut model));
             let mut dpc = creator::DirectoryPackCreator::new(
@@ -942,6 +978,11 @@ fn build_inner(
             if let Some(d) = dir_data.take() {
                 mpc.add_pack(d, loc(format!("{name}.jbkd")));
             }
+            let mut alt_file = None;
+            if let Some((data, path)) = alt_pack.take() {
+                mpc.add_pack(data, loc(path.file_name().unwrap().to_str().unwrap().to_string()));
+                alt_file = Some(path);
+            }
             let man_path = dir.join(format!("{name}.jbkm"));
             let mut man_file = std::fs::OpenOptions::new()
                 .read(true)
@@ -958,6 +999,9 @@ fn build_inner(
                     files.push(f.clone());
                 }
             }
+            if let Some(f) = alt_file {
+                files.push(f);
+            }
             if logical.packaging == Packaging::Concat {
                 let mut order = files.clone();
                 let mut rng = Rng::derive(logical.aux_seed, "concat-order", 0);
@@ -970,12 +1014,17 @@ fn build_inner(
                 }
                 let out = dir.join(format!("{name}.jbk"));
                 jbk::tools::concat(&order, utf8(&out))?;
+                let mut kept = vec![out.clone()];
                 for f in &files {
-                    std::fs::remove_file(f)?;
+                    if logical.opts.keep_loose_beside && *f != man_path {
+                        kept.push(f.clone());
+                    } else {
+                        std::fs::remove_file(f)?;
+                    }
                 }
                 Ok(Built {
                     entry: out.clone(),
-                    files: vec![out],
+                    files: kept,
                     pack_files: HashMap::new(),
                     model,
                 })
